@@ -3918,3 +3918,181 @@ Qed.
 
 Lemma MgrKeys_frun ops : forall s, MgrKeys s -> MgrKeys (frun s ops).
 Proof. induction ops as [|o ops IH]; intros s H; cbn; [exact H|apply IH, MgrKeys_fstep, H]. Qed.
+
+Lemma sweep_app elapsed : forall a b s st wk,
+  sweep s (a ++ b) elapsed st wk =
+  match sweep s a elapsed st wk with
+  | (s1, st1, wk1, Some site) => (s1, st1, wk1, Some site)
+  | (s1, st1, wk1, None) => sweep s1 b elapsed st1 wk1
+  end.
+Proof.
+  induction a as [|k a IH]; intros b s st wk; cbn [app sweep]; [reflexivity|].
+  destruct (aget (f_mgr s) k) as [r|]; [|apply IH]. destruct (should_start r).
+  - destruct (retrier_start s k r) as [s1 [site|]]; [reflexivity|apply IH].
+  - destruct (is_idle (r_status r) && memN k elapsed); apply IH.
+Qed.
+
+(* the sweep leaves the retrier of t alone while it works on other towers (as long as it does not panic) *)
+Lemma sweep_frame t elapsed : forall keys s st wk,
+  ~ In t keys ->
+  snd (sweep s keys elapsed st wk) = None -> tsame t s (fst (fst (fst (sweep s keys elapsed st wk)))).
+Proof.
+  induction keys as [|k keys IH]; intros s st wk Hn Ho; cbn [sweep] in *; [apply tsame_refl|].
+  assert (Hk : k <> t) by (intros ->; apply Hn; left; reflexivity).
+  assert (Hn' : ~ In t keys) by (intros H; apply Hn; right; exact H).
+  destruct (aget (f_mgr s) k) as [r|]; [|apply IH; assumption]. destruct (should_start r).
+  - destruct (retrier_start s k r) as [s1 [site|]] eqn:E; [discriminate Ho|].
+    eapply tsame_trans; [eapply start_tsame; eassumption|apply IH; assumption].
+  - destruct (is_idle (r_status r) && memN k elapsed); [|apply IH; assumption].
+    eapply tsame_trans; [apply wake_tsame; exact Hk|apply IH; assumption].
+Qed.
+
+(* no stopped retrier with data belongs to an abandoned tower: then no start panics *)
+Definition starts_safe (s : fstate) : Prop :=
+  forall k r, aget (f_mgr s) k = Some r -> should_start r = true -> knownc (f_c s) k.
+
+Lemma knownc_start s k r s1 x : retrier_start s k r = (s1, None) -> (knownc (f_c s1) x <-> knownc (f_c s) x).
+Proof.
+  unfold retrier_start. destruct (aget (c_towers (f_c s)) k) as [su|]; [|discriminate]. intros E. inversion E. subst. clear E.
+  cbn [f_c set_tasks put_retrier set_mgr set_c]. unfold knownc. cbn [c_towers with_retriers].
+  destruct (is_subscription_error (su_status su)); [tauto|apply knownc_set_status].
+Qed.
+
+Lemma sweep_no_abort elapsed : forall keys s st wk,
+  NoDup keys ->
+  (forall k r, In k keys -> aget (f_mgr s) k = Some r -> should_start r = true -> knownc (f_c s) k) ->
+  snd (sweep s keys elapsed st wk) = None.
+Proof.
+  induction keys as [|k keys IH]; intros s st wk Hnd Hs; cbn [sweep]; [reflexivity|]. inversion Hnd as [|? ? Hk Hnd']. subst.
+  destruct (aget (f_mgr s) k) as [r|] eqn:Er.
+  2:{ apply IH; [exact Hnd'|]. intros x rx Hx. apply Hs. right. exact Hx. }
+  destruct (should_start r) eqn:Ess.
+  - pose proof (Hs k r (or_introl eq_refl) Er Ess) as Hkn.
+    destruct (retrier_start s k r) as [s1 o] eqn:E. unfold retrier_start in E. unfold knownc, amem in Hkn.
+    destruct (aget (c_towers (f_c s)) k) as [su|] eqn:Et; [|discriminate]. inversion E. subst s1 o.
+    apply IH; [exact Hnd'|]. intros x rx Hx Hrx Hsx.
+    assert (x <> k) by (intros ->; contradiction).
+    cbn [f_mgr set_tasks put_retrier set_mgr set_c] in Hrx. rewrite aget_aset_other in Hrx by assumption.
+    pose proof (Hs x rx (or_intror Hx) Hrx Hsx) as Hx0.
+    cbn [f_c set_tasks put_retrier set_mgr set_c]. unfold knownc. cbn [c_towers with_retriers].
+    destruct (is_subscription_error (su_status su)); [exact Hx0|apply knownc_set_status; exact Hx0].
+  - destruct (is_idle (r_status r) && memN k elapsed).
+    + apply IH; [exact Hnd'|]. intros x rx Hx Hrx Hsx. assert (x <> k) by (intros ->; contradiction).
+      unfold wake in Hrx. cbn [f_mgr put_retrier set_mgr set_c] in Hrx. rewrite aget_aset_other in Hrx by assumption.
+      exact (Hs x rx (or_intror Hx) Hrx Hsx).
+    + apply IH; [exact Hnd'|]. intros x rx Hx. apply Hs. right. exact Hx.
+Qed.
+
+Lemma NoDup_split_at (t : N) keys : NoDup keys -> In t keys -> exists pre post, keys = pre ++ t :: post /\ ~ In t pre /\ ~ In t post.
+Proof.
+  intros Hnd Hin. apply in_split in Hin. destruct Hin as [pre [post ->]]. exists pre, post. split; [reflexivity|].
+  apply NoDup_remove_2 in Hnd. split; intros H; apply Hnd; apply in_or_app; [left|right]; exact H.
+Qed.
+
+(* what one sweep does to the retrier of t, whatever else is in the manager's map *)
+Lemma sweep_at_t t elapsed sR r :
+  NoDup (map fst (f_mgr sR)) -> aget (f_mgr sR) t = Some r ->
+  snd (sweep sR (map fst (f_mgr sR)) elapsed [] []) = None ->
+  exists sA, tsame t sR sA /\
+    tsame t (if should_start r then fst (retrier_start sA t r)
+             else if is_idle (r_status r) && memN t elapsed then wake sA t r else sA)
+          (fst (fst (fst (sweep sR (map fst (f_mgr sR)) elapsed [] [])))) /\
+    (should_start r = true -> snd (retrier_start sA t r) = None).
+Proof.
+  intros Hnd Hr Hwhole. set (keys := map fst (f_mgr sR)) in *.
+  assert (Hin : In t keys) by (unfold keys; apply in_map_iff; exists (t, r); split; [reflexivity|apply aget_In, Hr]).
+  destruct (NoDup_split_at t keys Hnd Hin) as [pre [post [Ek [Hpre Hpost]]]].
+  rewrite Ek in *. rewrite sweep_app in *.
+  pose proof (sweep_frame t elapsed pre sR [] [] Hpre) as Hfr.
+  destruct (sweep sR pre elapsed [] []) as [[[sA stA] wkA] oA] eqn:EA. cbn [fst snd] in Hfr.
+  destruct oA as [site|]; [cbn [snd] in Hwhole; discriminate|]. specialize (Hfr eq_refl).
+  exists sA. split; [exact Hfr|].
+  assert (HrA : aget (f_mgr sA) t = Some r) by (destruct Hfr as [A _]; rewrite A; exact Hr).
+  cbn [sweep] in *. rewrite HrA in *. destruct (should_start r) eqn:Ess.
+  - destruct (retrier_start sA t r) as [s1 o1] eqn:E1. destruct o1 as [site|]; [cbn [snd] in Hwhole; discriminate|].
+    cbn [fst snd]. split; [|reflexivity]. apply (sweep_frame t elapsed post s1 _ _ Hpost Hwhole).
+  - split; [|discriminate]. destruct (is_idle (r_status r) && memN t elapsed); apply (sweep_frame t elapsed post _ _ _ Hpost Hwhole).
+Qed.
+
+Lemma starts_safe_retain s : starts_safe s -> starts_safe (retain_state s).
+Proof.
+  intros H k r Hk Hs. unfold retain_state, set_mgr in Hk. cbn [f_mgr] in Hk. rewrite aget_aretain in Hk.
+  destruct (retrier_kept s k); [|discriminate]. exact (H k r Hk Hs).
+Qed.
+
+(* C13 gives_up_truthfully / delivers_on_recovery, the manager: an idle retrier whose auto-retry delay has elapsed is
+   woken by the next tick of a drained manager: stopped, its set = every pending row of the tower, out of
+   WTClient::retriers; nothing else about the tower changes *)
+Theorem manager_wakes s t r0 elapsed :
+  FInv s -> MgrKeys s -> starts_safe s -> poisoned s = false -> f_mgr_dead s = false -> f_chan s = [] ->
+  aget (f_mgr s) t = Some r0 -> r_status r0 = RIdle -> memN t elapsed = true ->
+  let s1 := fst (f_manager_tick s elapsed) in
+  aget (f_mgr s1) t = Some {| r_status := RStopped; r_pending := set_union (r_pending r0) (pending_locators (c_db (f_c s)) t) |} /\
+  aget (c_retriers (f_c s1)) t = None /\ stat (f_c s1) t = stat (f_c s) t /\ c_db (f_c s1) = c_db (f_c s) /\
+  f_chan s1 = [] /\ f_mgr_dead s1 = false /\ (In t (f_tasks s1) <-> In t (f_tasks s)).
+Proof.
+  intros HF HK Hsafe Hp Hd Ec Hr Hidle Hel. unfold f_manager_tick. rewrite Hd, Ec. unfold mgr_sweep. rewrite Hp. cbn [andb]. cbv zeta.
+  change (poisoned (retain_state s)) with (poisoned s). rewrite Hp. cbn [andb].
+  set (sR := retain_state s).
+  assert (HrR : aget (f_mgr sR) t = Some r0).
+  { unfold sR, retain_state, set_mgr. cbn [f_mgr]. rewrite aget_aretain. unfold retrier_kept. rewrite Hr. unfold keep_retrier. rewrite Hidle. cbn. rewrite orb_true_r. reflexivity. }
+  assert (HndR : NoDup (map fst (f_mgr sR))) by (unfold sR, retain_state, set_mgr; cbn [f_mgr]; apply NoDup_keys_aretain, HK).
+  assert (Hwhole : snd (sweep sR (map fst (f_mgr sR)) elapsed [] []) = None).
+  { apply sweep_no_abort; [exact HndR|]. intros k r _ Hk Hs. exact (starts_safe_retain s Hsafe k r Hk Hs). }
+  destruct (sweep_at_t t elapsed sR r0 HndR HrR Hwhole) as [sA [HA [HB _]]].
+  assert (Hss : should_start r0 = false) by (unfold should_start; rewrite Hidle; reflexivity).
+  rewrite Hss, Hidle, Hel in HB. cbn [is_idle andb] in HB.
+  destruct (sweep sR (map fst (f_mgr sR)) elapsed [] []) as [[[sF st] wk] o] eqn:ES. cbn [snd] in Hwhole. subst o. cbn [fst] in *.
+  destruct HA as [A1 [A2 [A3 [A4 [A5 [A6 A7]]]]]]. destruct HB as [B1 [B2 [B3 [B4 [B5 [B6 B7]]]]]].
+  assert (R2 : aget (c_retriers (f_c sR)) t = aget (c_retriers (f_c s)) t \/ True) by (right; exact I).
+  split.
+  { rewrite B1. unfold wake, put_retrier, set_mgr. cbn [f_mgr set_c]. rewrite aget_aset_same. rewrite A4. reflexivity. }
+  split.
+  { rewrite B2. unfold wake. cbn [f_c put_retrier set_mgr set_c c_retriers with_retriers]. rewrite aget_aremove, N.eqb_refl. reflexivity. }
+  split; [rewrite B3; unfold wake; cbn [f_c put_retrier set_mgr set_c]; unfold stat; cbn [c_towers with_retriers]; exact A3|].
+  split; [rewrite B4; unfold wake; cbn [f_c put_retrier set_mgr set_c c_db with_retriers]; exact A4|].
+  split; [rewrite B5; unfold wake; cbn [f_chan put_retrier set_mgr set_c]; rewrite A5; exact Ec|].
+  split; [rewrite B7; unfold wake; cbn [f_mgr_dead put_retrier set_mgr set_c]; rewrite A7; exact Hd|].
+  rewrite B6. unfold wake. cbn [f_tasks put_retrier set_mgr set_c]. exact A6.
+Qed.
+
+(* ... and a stopped retrier holding data is started by the next tick: Running (also in WTClient::retriers), one
+   live task, the tower shown temporary unreachable (or still subscription error: the renewal comes first) *)
+Theorem manager_starts s t r0 elapsed :
+  FInv s -> MgrKeys s -> starts_safe s -> poisoned s = false -> f_mgr_dead s = false -> f_chan s = [] ->
+  aget (f_mgr s) t = Some r0 -> should_start r0 = true ->
+  let s1 := fst (f_manager_tick s elapsed) in
+  aget (f_mgr s1) t = Some {| r_status := RRunning; r_pending := r_pending r0 |} /\
+  aget (c_retriers (f_c s1)) t = Some RRunning /\ In t (f_tasks s1) /\
+  stat (f_c s1) t = (if match stat (f_c s) t with Some SubscriptionError => true | _ => false end then stat (f_c s) t else Some TemporaryUnreachable) /\
+  c_db (f_c s1) = c_db (f_c s) /\ f_chan s1 = [] /\ f_mgr_dead s1 = false.
+Proof.
+  intros HF HK Hsafe Hp Hd Ec Hr Hss. unfold f_manager_tick. rewrite Hd, Ec. unfold mgr_sweep. rewrite Hp. cbn [andb]. cbv zeta.
+  change (poisoned (retain_state s)) with (poisoned s). rewrite Hp. cbn [andb].
+  set (sR := retain_state s).
+  assert (HrR : aget (f_mgr sR) t = Some r0).
+  { unfold sR, retain_state, set_mgr. cbn [f_mgr]. rewrite aget_aretain. unfold retrier_kept. rewrite Hr. unfold keep_retrier. rewrite Hss. reflexivity. }
+  assert (HndR : NoDup (map fst (f_mgr sR))) by (unfold sR, retain_state, set_mgr; cbn [f_mgr]; apply NoDup_keys_aretain, HK).
+  assert (Hwhole : snd (sweep sR (map fst (f_mgr sR)) elapsed [] []) = None).
+  { apply sweep_no_abort; [exact HndR|]. intros k r _ Hk Hs. exact (starts_safe_retain s Hsafe k r Hk Hs). }
+  destruct (sweep_at_t t elapsed sR r0 HndR HrR Hwhole) as [sA [HA [HB HC]]]. rewrite Hss in HB. specialize (HC Hss).
+  destruct (sweep sR (map fst (f_mgr sR)) elapsed [] []) as [[[sF st] wk] o] eqn:ES. cbn [snd] in Hwhole. subst o. cbn [fst] in *.
+  destruct HA as [A1 [A2 [A3 [A4 [A5 [A6 A7]]]]]].
+  destruct (retrier_start sA t r0) as [sB oB] eqn:EB. cbn [fst snd] in HB, HC. subst oB.
+  destruct HB as [B1 [B2 [B3 [B4 [B5 [B6 B7]]]]]].
+  unfold retrier_start in EB. destruct (aget (c_towers (f_c sA)) t) as [su|] eqn:Et; [|discriminate]. inversion EB. subst sB. clear EB.
+  cbn [f_mgr f_c f_chan f_tasks f_mgr_dead set_tasks put_retrier set_mgr set_c c_retriers c_db with_retriers] in *.
+  assert (Hst : stat (f_c s) t = Some (su_status su)).
+  { change (stat (f_c sR) t) with (stat (f_c s) t) in A3. rewrite <- A3. unfold stat. rewrite Et. reflexivity. }
+  split; [rewrite B1; apply aget_aset_same|].
+  split; [rewrite B2; apply aget_aset_same|].
+  split; [apply B6; apply in_or_app; right; left; reflexivity|].
+  split.
+  { rewrite B3, Hst. unfold stat. cbn [c_towers with_retriers]. destruct (su_status su) eqn:Es; cbn [is_subscription_error];
+      try (change (option_map su_status (aget (c_towers (wt_set_tower_status (f_c sA) t TemporaryUnreachable)) t)) with (stat (wt_set_tower_status (f_c sA) t TemporaryUnreachable) t);
+           rewrite stat_set_status, N.eqb_refl; unfold stat; rewrite Et; reflexivity).
+    rewrite Et. cbn. rewrite Es. reflexivity. }
+  split.
+  { rewrite B4. destruct (is_subscription_error (su_status su)); [exact A4|rewrite DbInv_set_status; exact A4]. }
+  split; [rewrite B5, A5; exact Ec|]. rewrite B7, A7. exact Hd.
+Qed.
